@@ -19,7 +19,7 @@ from .front import AnalysisError, ClassInfo, FuncInfo, Program, norm
 
 NEXT, BRK, CONT = 'next', 'brk', 'cont'
 MAX_DEPTH = 24
-MAX_ROUNDS = 8
+MAX_ROUNDS = 12
 MAX_STATES = 4000
 
 
@@ -147,6 +147,7 @@ class Interp(ModelMixin):
         self.stats['calls'] += 1
         self.functions_entered.add(fi.qualname)
         fr = Frame(fi, id(node), len(st.frames))
+        fr.callnode = node
         bound = self.bind_args(fi, args, kwargs, st, node, self_val)
         if isinstance(bound, Raise):
             return [(bound, st)]
@@ -636,7 +637,7 @@ class Interp(ModelMixin):
             work = nxt
         return self.dedupe(res)
 
-    def run_loop(self, itval: Val, st: State, body, node):
+    def run_loop(self, itval: Val, st: State, body, node, joiner=None):
         """Iterate *itval*.  body(elem, state) -> [(ctl, state)].
         Returns (exits [(kind, state)], escapes [(ctl, state)])."""
         self.stats['loops'] += 1
@@ -697,6 +698,8 @@ class Interp(ModelMixin):
                                 exits.append(('break', s2))
                             else:
                                 escapes.append((ctl, s2))
+                if joiner is not None and len(nxt) > 1:
+                    nxt = joiner(nxt)
                 work = nxt
         for _, s in exits:
             s.frame.loops -= 0   # loop ids are never reused inside one frame activation
@@ -713,15 +716,6 @@ class Interp(ModelMixin):
                 seen_e[k] = (kind, s)
         out_exits = list(seen_e.values())
         return out_exits, self.dedupe(escapes)
-
-    def loop_iter_start(self, st, depth, spec, count):
-        pass
-
-    def loop_exit(self, st, depth, spec, count):
-        pass
-
-    def loop_done(self, st, depth):
-        pass
 
     def gc(self, st: State):
         """Drop heap entries that the program can no longer reach."""
@@ -792,6 +786,12 @@ class Interp(ModelMixin):
                 visit_val(f.cur_exc)
         for sym in self.mon_roots(st):
             visit(sym)
+        memo = st.mon.get('propmemo')
+        if memo:
+            memo = {k: v for k, v in memo.items() if k[0] in reach}
+            st.mon['propmemo'] = memo
+            for v in memo.values():
+                visit_val(v)
         dead = [s for s in st.heap if s not in reach]
         if dead:
             self.on_gc(st, dead)
@@ -801,16 +801,13 @@ class Interp(ModelMixin):
             st.facts = {f for f in st.facts if not any(isinstance(x, int) and x in deadset for x in f[1:])}
             st.first = {k: v for k, v in st.first.items() if k[0] not in deadset and (v == 'ABSENT' or v not in deadset)}
             st.lookups = {k: v for k, v in st.lookups.items() if k[0] not in deadset and v not in deadset}
-            for name in ('textsyms', 'attrib_of', 'descend_of'):
+            for name in ('textsyms', 'attrib_of', 'descend_of', 'sym:textnull'):
                 m = st.mon.get(name)
                 if m:
                     st.mon[name] = {k: v for k, v in m.items() if k not in deadset}
             m = st.mon.get('nth')
             if m:
                 st.mon['nth'] = {k: v for k, v in m.items() if k[1] not in deadset and v not in deadset}
-
-    def mon_roots(self, st):
-        return ()
 
     def on_gc(self, st, dead):
         pass
@@ -1225,7 +1222,19 @@ class Interp(ModelMixin):
                 return [(ClsV(ci.qualname), st)]
             fi = ci.find(name)
             if fi is not None and fi.kind == 'property':
-                return self.call_function(fi, [], {}, st, node, self_val=o)
+                memo = st.mon.get('propmemo')
+                if memo and (o.sym, fi.qualname) in memo:
+                    return [(memo[(o.sym, fi.qualname)], st)]
+                before = st.effects
+                outs = self.call_function(fi, [], {}, st, node, self_val=o)
+                for v, s in outs:
+                    # a getter evaluated without side effects yields the same value when evaluated again on
+                    # the same path (until the next effect): value-number it
+                    if not isinstance(v, Raise) and s.effects == before and o.sym in s.heap:
+                        m = dict(s.mon.get('propmemo') or {})
+                        m[(o.sym, fi.qualname)] = v
+                        s.mon['propmemo'] = m
+                return outs
             v = e.get(name)
             if v is not None:
                 return [(v, st)]
@@ -1303,6 +1312,16 @@ class Interp(ModelMixin):
                 raise AnalysisError('property setters are not modelled')
             self.on_setfield(o, name, e.get(name), val, st, node)
             st.put(o.sym, e.set(name, val))
+            f = st.frame.func
+            own = f is not None and f.kind == 'property' and f.node.args.args and st.frame.env.get(f.node.args.args[0].arg) == o
+            if own:
+                # a getter caching into its own receiver (``self._id = ...``): idempotent, only that object's
+                # value numbers are dropped
+                memo = st.mon.get('propmemo')
+                if memo:
+                    st.mon['propmemo'] = {k: v for k, v in memo.items() if k[0] != o.sym}
+            else:
+                st.effect()
             return [(NoneV(), st)]
         if isinstance(o, NoneV):
             return [(self.exc('AttributeError', st, node, f"'NoneType' object has no attribute '{name}'"), st)]
